@@ -23,6 +23,9 @@ Inductive eval_refs (sg : state) : list nref -> list event -> bool -> Prop :=
 
 Fixpoint bind (tg : list nref) (sg : state) : state :=
   match tg with [] => sg | r :: t => bind t (upd sg (snd r) true) end.
+(* the assignments to the targets of a for loop, as events *)
+Fixpoint bind_ev (tg : list nref) (sg : state) : list event :=
+  match tg with [] => [] | r :: t => (fst r, snd r, sg (snd r)) :: bind_ev t (upd sg (snd r) true) end.
 
 (* a for loop evaluates its iterator once, a while loop its condition at every iteration *)
 Definition head_eval (isfor : bool) (sg : state) (c : list nref) (tr : list event) (ok : bool) : Prop :=
@@ -42,9 +45,9 @@ Inductive exec : item -> state -> list event -> out -> state -> Prop :=
 | x_call sg : exec (IS Call) sg [] ONorm sg
 | x_call_exc sg : exec (IS Call) sg [] OExc sg
 | x_ref l e sg : exec (IS (Ref l e)) sg [(l, e, sg e)] (if sg e then ONorm else OExc) sg
-| x_asg l e sg : exec (IS (Asg l e)) sg [] ONorm (upd sg e true)
+| x_asg l e sg : exec (IS (Asg l e)) sg [(l, e, sg e)] ONorm (upd sg e true)
 | x_del l e ign sg : sg e = true \/ ign = true ->
-    exec (IS (Del l e ign)) sg (if ign then ([] : list event) else [(l, e, sg e)]) ONorm (upd sg e false)
+    exec (IS (Del l e ign)) sg [(l, e, sg e)] ONorm (upd sg e false)
 | x_del_exc l e sg : sg e = false -> exec (IS (Del l e false)) sg [(l, e, false)] OExc sg
 | x_seq a b sg t1 s1 t2 o s2 : exec (IS a) sg t1 ONorm s1 -> exec (IS b) s1 t2 o s2 ->
     exec (IS (Seq a b)) sg (t1 ++ t2) o s2
@@ -67,13 +70,14 @@ Inductive exec : item -> state -> list event -> out -> state -> Prop :=
     exec (IL f c tg body true el) sg (t1 ++ t2) o s2
 | l_iter f c tg body h el sg t1 t2 ob s1 t3 o s2 : head_eval f sg c t1 true ->
     exec (IS body) (if f then bind tg sg else sg) t2 ob s1 -> ob = ONorm \/ ob = OCont ->
-    exec (IL f c tg body h el) s1 t3 o s2 -> exec (IL f c tg body h el) sg (t1 ++ t2 ++ t3) o s2
+    exec (IL f c tg body h el) s1 t3 o s2 ->
+    exec (IL f c tg body h el) sg ((t1 ++ (if f then bind_ev tg sg else [])) ++ t2 ++ t3) o s2
 | l_break f c tg body h el sg t1 t2 s1 : head_eval f sg c t1 true ->
     exec (IS body) (if f then bind tg sg else sg) t2 OBrk s1 ->
-    exec (IL f c tg body h el) sg (t1 ++ t2) ONorm s1
+    exec (IL f c tg body h el) sg ((t1 ++ (if f then bind_ev tg sg else [])) ++ t2) ONorm s1
 | l_prop f c tg body h el sg t1 t2 ob s1 : head_eval f sg c t1 true ->
     exec (IS body) (if f then bind tg sg else sg) t2 ob s1 -> ob = ORet \/ ob = OExc ->
-    exec (IL f c tg body h el) sg (t1 ++ t2) ob s1
+    exec (IL f c tg body h el) sg ((t1 ++ (if f then bind_ev tg sg else [])) ++ t2) ob s1
 | t_norm body el hs sg t1 s1 : exec (IS body) sg t1 ONorm s1 ->
     exec (IS (Try body false el hs)) sg t1 ONorm s1
 | t_else body el hs sg t1 s1 t2 o s2 : exec (IS body) sg t1 ONorm s1 -> exec (IS el) s1 t2 o s2 ->
@@ -85,7 +89,7 @@ Inductive exec : item -> state -> list event -> out -> state -> Prop :=
 | h_nil sg : exec (IH HNil) sg [] OExc sg
 | h_match (hastg : bool) tl te hb rest (sg : state) t o s2 :
     exec (IS hb) (if hastg then upd sg te true else sg) t o s2 ->
-    exec (IH (HCons hastg tl te hb rest)) sg t o s2
+    exec (IH (HCons hastg tl te hb rest)) sg ((if hastg then [(tl, te, sg te)] else []) ++ t) o s2
 | h_skip hastg tl te hb rest sg t o s2 : exec (IH rest) sg t o s2 ->
     exec (IH (HCons hastg tl te hb rest)) sg t o s2
 | f_exc body fexc fnorm sg t1 s1 t2 o2 s2 : exec (IS body) sg t1 OExc s1 -> exec (IS fexc) s1 t2 o2 s2 ->
@@ -106,11 +110,12 @@ Inductive P (g : bst) : nat -> nat -> state -> Prop :=
 | P_stat b k s sg : P g b k sg -> stat_at g b k = Some s -> P g b (S k) (eff s sg)
 | P_edge u k v sg : P g u k sg -> In (u, k, v) (eds g) -> P g v 0 sg.
 
-(* an event "entry e read through NameNode l while unbound" is covered: the graph has that
-   reference at a position reached with e unbound *)
+(* an event "NameNode l (a read, an assignment target or a del) of entry e evaluated while e is
+   unbound" is covered: the graph has a statement of that node at a position reached with e unbound *)
 Definition justified (g : bst) (ev : event) : Prop :=
   match ev with (l, e, bnd) =>
-    bnd = false -> exists b k sg, P g b k sg /\ stat_at g b k = Some (LRef l e) /\ sg e = false end.
+    bnd = false -> exists b k sg s, P g b k sg /\ stat_at g b k = Some s /\
+                                    label_of s = l /\ entry_of s = e /\ sg e = false end.
 
 Definition at_cur (g st : bst) (sg : state) : Prop :=
   exists b, cur st = Some b /\ P g b (len st b) sg.
@@ -258,9 +263,16 @@ Proof. apply (ceq_exc_edge X). Qed.
 Lemma at_cur_some g X sg : at_cur g X sg -> exists b, cur X = Some b.
 Proof. intros (b & H & _). eauto. Qed.
 
+Lemma append_justified g X s sg : ext (append s X) g -> at_cur g X sg ->
+  justified g (label_of s, entry_of s, sg (entry_of s)).
+Proof.
+  intros He (b & Hc & HP) Hb. exists b, (len X b), sg, s. split; auto. split; auto.
+  eapply stat_at_ext; eauto. now apply stat_at_append.
+Qed.
+
 Lemma v_asg_sound g X l e sg : inv X -> ext (v_asg l e X) g -> at_cur g X sg ->
   at_cur g (v_asg l e X) (upd sg e true) /\ Kexc g (excs X) (upd sg e true) /\
-  (excs X = [] \/ True).
+  justified g (l, e, sg e).
 Proof.
   intros Hi He HA. destruct (at_cur_some _ _ _ HA) as [b Hc]. unfold v_asg in *. rewrite Hc in *.
   set (X1 := exc_edge X) in *. set (X2 := append (LAsg l e) X1) in *.
@@ -272,7 +284,7 @@ Proof.
   destruct (exc_edge_sound g X sg Hi E1 HA) as [A1 _].
   pose proof (at_cur_append g X1 (LAsg l e) sg E2 A1) as A2.
   destruct (exc_edge_sound g X2 _ (R_inv _ _ _ R2) He A2) as [A3 K3].
-  split; [exact A3|]. split; [|auto].
+  split; [exact A3|]. split; [|exact (append_justified g X1 (LAsg l e) sg E2 A1)].
   unfold X2 in K3. rewrite excs_append in K3. unfold X1 in K3. now rewrite excs_exc_edge in K3.
 Qed.
 
@@ -280,13 +292,12 @@ Lemma v_ref_sound g X l e sg : ext (v_ref l e X) g -> at_cur g X sg ->
   at_cur g (v_ref l e X) sg /\ justified g (l, e, sg e).
 Proof.
   intros He HA. split; [exact (at_cur_append g X (LRef l e) sg He HA)|].
-  intros Hb. destruct HA as (b & Hc & HP). exists b, (len X b), sg. split; auto. split; auto.
-  eapply stat_at_ext; eauto. now apply stat_at_append.
+  exact (append_justified g X (LRef l e) sg He HA).
 Qed.
 
 Lemma v_del_sound g X l e ign sg : inv X -> ext (v_del l e ign X) g -> at_cur g X sg ->
   at_cur g (v_del l e ign X) (upd sg e false) /\ Kexc g (excs X) (upd sg e false) /\
-  (ign = false -> justified g (l, e, sg e)).
+  justified g (l, e, sg e).
 Proof.
   intros Hi He HA. destruct (at_cur_some _ _ _ HA) as [b Hc]. unfold v_del in *. rewrite Hc in *.
   set (X1 := if ign then X else append (LRef l e) X) in *. set (X2 := append (LDel l e) X1) in *.
@@ -295,10 +306,9 @@ Proof.
   assert (R3 : R 0 X2 (exc_edge X2)) by (apply R_exc_edge, R0, (R_inv _ _ _ R2)).
   assert (E2 : ext X2 g) by (eapply ext_back; eauto).
   assert (E1 : ext X1 g) by (eapply ext_back; eauto).
-  assert (A1 : at_cur g X1 sg /\ (ign = false -> justified g (l, e, sg e))).
-  { unfold X1 in *. destruct ign; [split; [auto|discriminate]|].
-    destruct (v_ref_sound g X l e sg E1 HA). split; auto. }
-  destruct A1 as [A1 J1].
+  assert (A1 : at_cur g X1 sg).
+  { unfold X1 in *. destruct ign; [auto|]. destruct (v_ref_sound g X l e sg E1 HA). auto. }
+  pose proof (append_justified g X1 (LDel l e) sg E2 A1) as J1. simpl in J1.
   pose proof (at_cur_append g X1 (LDel l e) sg E2 A1) as A2.
   destruct (exc_edge_sound g X2 _ (R_inv _ _ _ R2) He A2) as [A3 K3].
   split; [exact A3|]. split; [|exact J1].
@@ -337,15 +347,17 @@ Lemma excs_v_asg l e X : excs (v_asg l e X) = excs X.
 Proof. apply (ceq_v_asg l e X). Qed.
 
 Lemma asgs_sound g tg : forall X sg, inv X -> ext (asgs tg X) g -> at_cur g X sg ->
-  Kexc g (excs X) sg -> at_cur g (asgs tg X) (bind tg sg) /\ Kexc g (excs X) (bind tg sg).
+  Kexc g (excs X) sg ->
+  at_cur g (asgs tg X) (bind tg sg) /\ Kexc g (excs X) (bind tg sg) /\ Forall (justified g) (bind_ev tg sg).
 Proof.
   induction tg as [|[l e] tg IH]; intros X sg Hi He HA HK; simpl in *; auto.
   assert (R1 : R 0 X (v_asg l e X)) by (apply R_v_asg, R0, Hi).
   assert (R2 : R 0 (v_asg l e X) (asgs tg (v_asg l e X))) by (apply R_asgs, R0, (R_inv _ _ _ R1)).
   assert (E1 : ext (v_asg l e X) g) by (eapply ext_back; eauto).
-  destruct (v_asg_sound g X l e sg Hi E1 HA) as (A1 & K1 & _).
+  destruct (v_asg_sound g X l e sg Hi E1 HA) as (A1 & K1 & J1).
   rewrite <- (excs_v_asg l e X) in K1 |- *.
-  apply IH; auto. exact (R_inv _ _ _ R1).
+  destruct (IH (v_asg l e X) (upd sg e true) (R_inv _ _ _ R1) He A1 K1) as (A2 & K2 & J2).
+  split; auto.
 Qed.
 
 (* a jump: the edges of chain_edges realise [chain] *)
@@ -402,25 +414,25 @@ Proof.
   split; [constructor; auto|]. split; auto. destruct (sg e); auto.
 Qed.
 
-Lemma sim_asg l e sg : sim_stmt (Asg l e) sg [] ONorm (upd sg e true).
+Lemma sim_asg l e sg : sim_stmt (Asg l e) sg [(l, e, sg e)] ONorm (upd sg e true).
 Proof.
-  intros st g Hi Hw He HA HK. simpl in *. destruct (v_asg_sound g st l e sg Hi He HA) as (A & K & _).
-  split; [constructor|]. split; auto.
+  intros st g Hi Hw He HA HK. simpl in *. destruct (v_asg_sound g st l e sg Hi He HA) as (A & K & J).
+  split; [constructor; auto|]. split; auto.
 Qed.
 
 Lemma sim_del l e ign sg : sg e = true \/ ign = true ->
-  sim_stmt (Del l e ign) sg (if ign then [] else [(l, e, sg e)]) ONorm (upd sg e false).
+  sim_stmt (Del l e ign) sg [(l, e, sg e)] ONorm (upd sg e false).
 Proof.
   intros Hb st g Hi Hw He HA HK. simpl in *.
   destruct (v_del_sound g st l e ign sg Hi He HA) as (A & K & J).
-  split; [|split; auto]. destruct ign; constructor; auto.
+  split; [|split; auto]. constructor; auto.
 Qed.
 
 Lemma sim_del_exc l e sg : sg e = false -> sim_stmt (Del l e false) sg [(l, e, false)] OExc sg.
 Proof.
   intros Hb st g Hi Hw He HA HK. simpl in *.
   destruct (v_del_sound g st l e false sg Hi He HA) as (A & K & J).
-  split; [|split; auto]. constructor; auto. specialize (J eq_refl). unfold justified in *. rewrite Hb in J. exact J.
+  split; [|split; auto]. constructor; auto. unfold justified in *. rewrite Hb in J. exact J.
 Qed.
 
 Lemma sim_seq a b sg t1 s1 t2 o s2 :
@@ -1276,7 +1288,8 @@ Section LoopCase.
   Qed.
 
   Lemma lp_body_entry sg : P g LC 0 sg -> Kexc g (excs st) sg ->
-    at_cur g Y6 (if isfor then bind tg sg else sg) /\ Kexc g (excs st) (if isfor then bind tg sg else sg).
+    at_cur g Y6 (if isfor then bind tg sg else sg) /\ Kexc g (excs st) (if isfor then bind tg sg else sg) /\
+    Forall (justified g) (if isfor then bind_ev tg sg else []).
   Proof.
     intros HP HK. pose proof (lp_head sg HP) as A4.
     assert (A5 : at_cur g Y5 sg) by (apply at_cur_nextblock; [apply lp_I4|apply lp_E5|exact A4]).
@@ -1286,8 +1299,8 @@ Section LoopCase.
       assert (RN : R 0 (asgs tg Y5) (nextblock (asgs tg Y5))) by (apply R_nextblock, R0, (R_inv _ _ _ RA)).
       assert (EA : ext (asgs tg Y5) g) by (eapply ext_back; eauto).
       assert (K5 : Kexc g (excs Y5) sg) by (rewrite lp_excs5; exact HK).
-      destruct (asgs_sound g tg Y5 sg lp_I5 EA A5 K5) as [AA KA]. rewrite lp_excs5 in KA.
-      split; auto. apply at_cur_nextblock; auto. exact (R_inv _ _ _ RA).
+      destruct (asgs_sound g tg Y5 sg lp_I5 EA A5 K5) as (AA & KA & JA). rewrite lp_excs5 in KA.
+      split; [|split; auto]. apply at_cur_nextblock; auto. exact (R_inv _ _ _ RA).
     - apply Bool.not_true_is_false in E. rewrite E in E6 |- *. auto.
   Qed.
 
@@ -1304,7 +1317,7 @@ Section LoopCase.
   Lemma lp_body sg t1 t2 ob s1 : P g LC 0 sg -> Kexc g (excs st) sg ->
     head_eval isfor sg c t1 true ->
     sim_stmt body (if isfor then bind tg sg else sg) t2 ob s1 ->
-    Forall (justified g) (t1 ++ t2) /\ Kexc g (excs st) s1 /\
+    Forall (justified g) ((t1 ++ (if isfor then bind_ev tg sg else [])) ++ t2) /\ Kexc g (excs st) s1 /\
     match ob with
     | ONorm | OCont => P g LC 0 s1
     | OBrk => at_cur g (cur_if_parents LN Y9) s1
@@ -1312,14 +1325,14 @@ Section LoopCase.
     | OExc => True
     end.
   Proof.
-    intros HP HK H IH. destruct (lp_body_entry sg HP HK) as [A6 K6].
+    intros HP HK H IH. destruct (lp_body_entry sg HP HK) as (A6 & K6 & JB).
     assert (Hw6 : wf (inl Y6) body = true).
     { rewrite lp_inl6. simpl in Hw. apply andb_true_iff in Hw. tauto. }
     destruct lp_ceq6 as [CL6 CE6].
     assert (K6' : Kexc g (excs Y6) (if isfor then bind tg sg else sg)) by (rewrite CE6; exact K6).
     destruct (IH Y6 g lp_I6 Hw6 lp_E7v A6 K6') as [J2 [K7 P7]]. fold Y7v in P7.
     rewrite CE6 in K7.
-    split; [apply Forall_app; split; auto; eapply lp_head_eval; eauto|]. split; auto.
+    split; [apply Forall_app; split; auto; apply Forall_app; split; auto; eapply lp_head_eval; eauto|]. split; auto.
     destruct ob; auto.
     - (* end of the body: back edge *)
       destruct P7 as (b & Hc & HPb).
@@ -1349,7 +1362,8 @@ Lemma sim_loop_else f c tg body el sg t1 t2 o s2 : head_eval f sg c t1 true -> s
 Proof. intros H IH st g Hi Hw He HP HK. eapply lp_else; eauto. Qed.
 Lemma sim_loop_iter f c tg body h el sg t1 t2 ob s1 t3 o s2 : head_eval f sg c t1 true ->
   sim_stmt body (if f then bind tg sg else sg) t2 ob s1 -> ob = ONorm \/ ob = OCont ->
-  sim_loop f c tg body h el s1 t3 o s2 -> sim_loop f c tg body h el sg (t1 ++ t2 ++ t3) o s2.
+  sim_loop f c tg body h el s1 t3 o s2 ->
+  sim_loop f c tg body h el sg ((t1 ++ (if f then bind_ev tg sg else [])) ++ t2 ++ t3) o s2.
 Proof.
   intros H IHb Hob IHl st g Hi Hw He HP HK.
   destruct (lp_body f c tg body h el st g Hi Hw He sg t1 t2 ob s1 HP HK H IHb) as (J & K1 & Q).
@@ -1359,7 +1373,7 @@ Proof.
 Qed.
 Lemma sim_loop_break f c tg body h el sg t1 t2 s1 : head_eval f sg c t1 true ->
   sim_stmt body (if f then bind tg sg else sg) t2 OBrk s1 ->
-  sim_loop f c tg body h el sg (t1 ++ t2) ONorm s1.
+  sim_loop f c tg body h el sg ((t1 ++ (if f then bind_ev tg sg else [])) ++ t2) ONorm s1.
 Proof.
   intros H IHb st g Hi Hw He HP HK.
   destruct (lp_body f c tg body h el st g Hi Hw He sg t1 t2 OBrk s1 HP HK H IHb) as (J & K1 & Q).
@@ -1367,7 +1381,7 @@ Proof.
 Qed.
 Lemma sim_loop_prop f c tg body h el sg t1 t2 ob s1 : head_eval f sg c t1 true ->
   sim_stmt body (if f then bind tg sg else sg) t2 ob s1 -> ob = ORet \/ ob = OExc ->
-  sim_loop f c tg body h el sg (t1 ++ t2) ob s1.
+  sim_loop f c tg body h el sg ((t1 ++ (if f then bind_ev tg sg else [])) ++ t2) ob s1.
 Proof.
   intros H IHb Hob st g Hi Hw He HP HK.
   destruct (lp_body f c tg body h el st g Hi Hw He sg t1 t2 ob s1 HP HK H IHb) as (J & K1 & Q).
@@ -1508,7 +1522,8 @@ Section HandlerCase.
   Lemma hc_match sg tr o s2 : wf_h (inl st) (HCons hastg tl te hb rest) = true ->
     P g E 0 sg -> Kexc g (excs st) sg ->
     sim_stmt hb (if hastg then upd sg te true else sg) tr o s2 ->
-    Forall (justified g) tr /\ posth g st (snd (visit_h true (HCons hastg tl te hb rest) N E st)) N o s2.
+    Forall (justified g) ((if hastg then [(tl, te, sg te)] else []) ++ tr) /\
+    posth g st (snd (visit_h true (HCons hastg tl te hb rest) N E st)) N o s2.
   Proof.
     intros Hw HP HK IH.
     assert (A3 : at_cur g H3 sg).
@@ -1516,12 +1531,13 @@ Section HandlerCase.
     assert (A4 : at_cur g H4 sg) by (apply at_cur_nextblock; [apply hc_I3|apply hc_E4|exact A3]).
     assert (C4 : ceq st H4) by (unfold H4, H3, H1; ceq_auto).
     assert (A5 : at_cur g H5 (if hastg then upd sg te true else sg) /\
-                 Kexc g (excs st) (if hastg then upd sg te true else sg)).
+                 Kexc g (excs st) (if hastg then upd sg te true else sg) /\
+                 Forall (justified g) (if hastg then [(tl, te, sg te)] else [])).
     { pose proof hc_E5 as E5. unfold H5 in *. destruct (Bool.bool_dec hastg true) as [Q|Q].
-      - rewrite Q in E5 |- *. destruct (v_asg_sound g H4 tl te sg hc_I4 E5 A4) as (A & K & _).
+      - rewrite Q in E5 |- *. destruct (v_asg_sound g H4 tl te sg hc_I4 E5 A4) as (A & K & J).
         destruct C4 as [_ CE4]. rewrite CE4 in K. auto.
       - apply Bool.not_true_is_false in Q. rewrite Q in E5 |- *. auto. }
-    destruct A5 as [A5 K5].
+    destruct A5 as (A5 & K5 & J5).
     assert (C5 : ceq st H5).
     { unfold H5. destruct (Bool.bool_dec hastg true) as [Q|Q].
       - rewrite Q. eapply ceq_trans; [exact C4|apply ceq_v_asg].
@@ -1533,7 +1549,7 @@ Section HandlerCase.
     assert (EV : ext (visit true hb H5) g).
     { eapply ext_back; [|apply hc_E6]. apply R_link_cur, R0. apply (R_inv 0 H5), visit_R00, hc_I5. }
     destruct (IH H5 g hc_I5 Hw5 EV A5 K5') as [J Q].
-    split; auto. apply (post_ctx g st H5) in Q; auto.
+    split; [apply Forall_app; auto|]. apply (post_ctx g st H5) in Q; auto.
     assert (Hincl : incl (eds H6) (eds (snd (visit_h true (HCons hastg tl te hb rest) N E st)))).
     { rewrite hc_final. apply ext_edges, (R_ext 0).
       apply (visit_h_R rest 0 H6 H6 N E2); [lia|apply hc_E2_lt|apply R0, hc_I6]. }
@@ -1555,7 +1571,7 @@ Lemma sim_h_nil sg : sim_h HNil sg [] OExc sg.
 Proof. intros st g N E Hi Hw HE HL He HP HK. split; [constructor|]. split; auto. Qed.
 Lemma sim_h_match (hastg : bool) tl te hb rest (sg : state) t o s2 :
   sim_stmt hb (if hastg then upd sg te true else sg) t o s2 ->
-  sim_h (HCons hastg tl te hb rest) sg t o s2.
+  sim_h (HCons hastg tl te hb rest) sg ((if hastg then [(tl, te, sg te)] else []) ++ t) o s2.
 Proof. intros IH st g N E Hi Hw HE HL He HP HK. eapply hc_match; eauto. Qed.
 Lemma sim_h_skip hastg tl te hb rest sg t o s2 : sim_h rest sg t o s2 ->
   sim_h (HCons hastg tl te hb rest) sg t o s2.
